@@ -81,15 +81,19 @@ IndexOK(obj, expr) ==
 Kept(expr) == SelectSeq([j \in DOMAIN expr |-> j], LAMBDA j : expr[j].t # "int")
 AdvPos(expr) == {j \in DOMAIN expr : expr[j].t \in {"int", "list"}}
 Contiguous(S) == S = {} \/ \A j \in (CHOOSE lo \in S : \A x \in S : lo <= x)..(CHOOSE hi \in S : \A x \in S : x <= hi) : j \in S
-ResultOrder(expr) ==
+\* The rule is SYNTACTIC: an Ellipsis written between two advanced indices separates them even when it expands
+\* to no axis at all (a[:, 0, ..., [0, 1]] on a 3-D array).  ell = position (1-based, in the expanded expression)
+\* before which the Ellipsis is written, 0 = none.
+SplitByEllipsis(expr, ell) == ell > 0 /\ (\E j \in AdvPos(expr) : j < ell) /\ (\E j \in AdvPos(expr) : j >= ell)
+ResultOrder(expr, ell) ==
   LET kept == Kept(expr)
       lst == {j \in DOMAIN expr : expr[j].t = "list"}
-  IN IF lst = {} \/ Contiguous(AdvPos(expr)) THEN kept
+  IN IF lst = {} \/ (Contiguous(AdvPos(expr)) /\ ~SplitByEllipsis(expr, ell)) THEN kept
      ELSE LET lj == CHOOSE j \in lst : TRUE
           IN <<lj>> \o SelectSeq(kept, LAMBDA j : j # lj)
 
-IndexResult(obj, expr) ==
-  LET order == ResultOrder(expr)
+IndexResult(obj, expr, ell) ==
+  LET order == ResultOrder(expr, ell)
       natural == Kept(expr)
       axOf(j) == LET ax == obj.axes[j]
                      pos == Positions(expr[j], Len(ax.src))
